@@ -21,7 +21,7 @@ MANIFEST = {
 }
 
 RULE = ("every .xgo/.gox/.spx/.gmx/.gsh file of the repo (error-free parses) unpruned and 1/3 of them with a prune modulus, a seeded sample of .go files "
-        "(all in thorough), layout-mutated XGo files, Package values over random files, and for every node kind registered by the translator "
+        "(all in thorough), layout-mutated XGo files, an embedded regression corpus incl. near-valid files, generated scripts and token-level mutants of valid sources in several parser modes (every tree returned with err == nil is walked; foreign node types are reported), Package values over random files, and for every node kind registered by the translator "
         "n/(kinds+1) reflection-synthesised trees with that kind as root (3/4 well-formed per the documented nil-ability, 1/4 malformed with random "
         "nils; depth 1-6; prune modulus 0 or 2..10); non-trivial = distinct tree with >= 3 nodes")
 
